@@ -18,3 +18,7 @@
 //! Contains functions and function factories to compare arrays.
 
 pub use arrow_cmp::{DynComparator, make_comparator};
+
+#[cfg(kani)]
+#[path = "/verif/kani/arrow-ord/ord.rs"]
+mod verif_kani;
